@@ -345,6 +345,11 @@ def reshape(x, shape, merge_chunks=True, limit=None):
 
     name = "reshape-" + tokenize(x, shape)
 
+    if x.size > 0 and any(len(c) > 1 and 0 in c for c in x.chunks):
+        # Chunks of size zero hold no data; the chunk arithmetic below
+        # assumes that every chunk has at least one element
+        x = x.rechunk(tuple(tuple(ci for ci in c if ci != 0) for c in x.chunks))
+
     if x.npartitions == 1 or x.size == 0:
         # One block, or no elements at all: an array without elements can be
         # reshaped from any one of its (empty) blocks, and the chunk arithmetic
